@@ -104,6 +104,7 @@ type Sorts struct {
 	structs map[string]*StructSort // by sort name
 	order   []string
 	heapElem map[string]types.Type // heap key -> element type
+	sitesOf  func(types.Type) int  // number of struct fields of the repository holding a value of this type
 }
 
 var theSorts *Sorts
@@ -379,6 +380,13 @@ func (ss *Sorts) rangeFact(t types.Type, term, top string) string {
 		}
 		return fmt.Sprintf("(slice_ok %s %s)", term, top)
 	case KPtr:
+		if pt, ok := t.Underlying().(*types.Pointer); ok && ss.sitesOf != nil {
+			if n := ss.sitesOf(pt.Elem()); n > 0 {
+				// a pointer to T may also designate a T-typed field of another object (encoded -(64*root+site))
+				return fmt.Sprintf("(or (and (<= 0 %s) (<= %s %s)) (and (< %s 0) (<= 1 (mod (- 0 %s) 64)) (<= (mod (- 0 %s) 64) %d) (<= 1 (div (- 0 %s) 64)) (<= (div (- 0 %s) 64) %s)))",
+					term, term, top, term, term, term, n, term, term, top)
+			}
+		}
 		return fmt.Sprintf("(and (<= 0 %s) (<= %s %s))", term, term, top)
 	case KStruct:
 		s := ss.structSort(t)
